@@ -390,10 +390,19 @@ func c16Fan(r *Run, sim *verifsim.Sim, mode string, sub int) {
 	client := core.NewClient(urls...)
 	client.Timeout = time.Hour
 	var gates []*c16gate
+	// stacked: a retrying cluster plugin behind the fan-out, and a call that says it is not idempotent: the item
+	// travels with the call into every branch, so each server is still asked exactly once
+	stacked := (sub/total)%2 == 1
+	r.Param("stacked_with_failtry", stacked)
+	var fan core.PluginHandler = core.InvokeHandler(cluster.Broadcast)
 	if mode == "forking" {
-		client.Use(cluster.Forking, c16next(sim, &gates))
+		fan = core.IOHandler(cluster.Forking)
+	}
+	if stacked {
+		retry := cluster.New(cluster.FailtryConfig(cluster.WithRetry(2), cluster.WithIdempotent(true), cluster.WithMinInterval(time.Millisecond), cluster.WithMaxInterval(2*time.Millisecond)))
+		client.Use(fan, retry.Handler, c16next(sim, &gates))
 	} else {
-		client.Use(cluster.Broadcast, c16next(sim, &gates))
+		client.Use(fan, c16next(sim, &gates))
 	}
 	src := &optSource{}
 	sim.AddSource(src)
@@ -409,6 +418,11 @@ func c16Fan(r *Run, sim *verifsim.Sim, mode string, sub int) {
 	}
 	c := &c16call{id: 1, byServer: by, gated: true}
 	ctx := context.WithValue(context.Background(), c16key{}, c)
+	if stacked {
+		cc := core.NewClientContext()
+		cc.Items().Set("idempotent", false)
+		ctx = context.WithValue(core.WithContext(context.Background(), cc), c16key{}, c)
+	}
 	retSeq := uint64(0)
 	sim.Task("call", func() {
 		c.res, c.err = client.InvokeContext(ctx, "f", []interface{}{1})
